@@ -90,3 +90,15 @@ def own_tempdir():
     d = tempfile.mkdtemp(prefix="p%d-" % os.getpid(), dir=root)
     tempfile.tempdir = d
     return d
+
+
+def quiet_problem(cls, **kw):
+    """Instantiate one of artap's own Problem subclasses (benchmarks) without exit handlers / working dirs."""
+    common.scratch_root()
+    p = cls(**kw)
+    atexit.unregister(p.cleanup)
+    try:
+        os.rmdir(p.working_dir)
+    except OSError:
+        pass
+    return p
